@@ -61,6 +61,10 @@ type pairCfg struct {
 	CRBuf, CWBuf, SRBuf, SWBuf int
 	CLimit, SLimit             int
 	HTTPServer                 bool
+	// Dialer, when set, is the application's ONE dialer value used for this handshake too (a copy of the struct per
+	// call, slices shared); Out receives the outcome both peers agreed on
+	Dialer *ws.Dialer
+	Out    *string
 }
 
 func (p pairCfg) String() string {
@@ -245,6 +249,12 @@ func runPair(c *mon.C, cfg pairCfg) bool {
 		opts, _ := httphead.ParseOptions([]byte(e), nil)
 		d.Extensions = append(d.Extensions, opts...)
 	}
+	if cfg.Dialer != nil {
+		if cfg.Dialer.Extensions == nil && cfg.Dialer.Protocols == nil {
+			*cfg.Dialer = d // first use: this is how the application configured it
+		}
+		d = *cfg.Dialer
+	}
 	if cfg.CliHdr > 0 {
 		d.Header = ws.HandshakeHeaderString("X-Client-Long: " + strings.Repeat("c", cfg.CliHdr) + "\r\n")
 	}
@@ -295,6 +305,9 @@ func runPair(c *mon.C, cfg pairCfg) bool {
 			}
 		}
 	}
+	if cfg.Out != nil {
+		*cfg.Out = fmt.Sprintf("ok=%v protocol=%q extensions=%v", cr.err == nil, cr.hs.Protocol, cr.hs.Extensions)
+	}
 	c.Classf("pair|%s|ok=%v|p=%d sel=%s|e=%d %s|hdr=%v/%v", srvName, cr.err == nil, len(cfg.Protocols), cfg.ProtoSel, len(cfg.ExtOffer), cfg.ExtSel, cfg.CliHdr > 0, cfg.SrvHdr > 0)
 	if c.WantSample() {
 		c.Sample(det)
@@ -341,7 +354,31 @@ func subPairs() mon.Sub {
 				cfg.SrvHdr = n
 			}
 			cfg.HTTPServer = i%5 == 4
-			runPair(c, cfg)
+			if i%3 != 0 {
+				runPair(c, cfg)
+				return
+			}
+			// one case in three: the application's ONE Dialer value connects twice (a reconnect) to servers configured
+			// alike: the same offer is negotiated and the same outcome reached, and the Dialer reads as configured
+			var base ws.Dialer
+			var out1, out2 string
+			cfg.Dialer, cfg.Out = &base, &out1
+			if !runPair(c, cfg) || out1 == "" {
+				return
+			}
+			snap := fmt.Sprintf("%q %v", base.Protocols, base.Extensions)
+			cfg.Out = &out2
+			if !runPair(c, cfg) || out2 == "" {
+				return
+			}
+			det := map[string]interface{}{"config": cfg.String(), "first": out1, "second": out2, "dialer_before": snap, "dialer_after": fmt.Sprintf("%q %v", base.Protocols, base.Extensions)}
+			if out1 != out2 {
+				c.Fail("pair/reconnect/outcome", "the same Dialer value against a server configured alike reached another outcome the second time: "+out1+" / "+out2, det)
+				return
+			}
+			if now := fmt.Sprintf("%q %v", base.Protocols, base.Extensions); now != snap {
+				c.Fail("pair/reconnect/configuration-changed", "the application's Dialer no longer holds what it was configured with: "+now+" / "+snap, det)
+			}
 		},
 	}
 }
